@@ -102,6 +102,8 @@ def make_plan(prop, seed, tier, i):
     rng = derive(seed, prop.ID, tier, i)
     plan = prop.gen(rng, tier, i)
     plan["_seedpath"] = f"{seed}/{prop.ID}/{tier}/{i}"
+    # verbose library output for about one run in seven (own stream: never shifts the generator's draws)
+    plan["_verbose"] = derive(seed, prop.ID, tier, i, "verbose").random() < 0.15
     return plan
 
 
